@@ -741,6 +741,16 @@ func (w *walker) unknown(f *frame, pos token.Pos, why string) {
 	w.rows = append(w.rows, row{handler: w.handler, fn: f.fname, line: line(pos), class: "CUnknown " + strconv.Quote(why), rw: "W"})
 }
 
+// blocking: a channel operation that can block (send, receive, range over a channel) while a storage lock is held.  Reply
+// channels are made by the requester; nothing in this package shows they are buffered, so every such operation under a
+// lock is flagged (close() never blocks and is not).
+func (w *walker) blocking(f *frame, pos token.Pos, what string) {
+	if len(w.held) == 0 {
+		return
+	}
+	w.rows = append(w.rows, row{handler: w.handler, fn: f.fname, line: line(pos), class: "CBlocking " + strconv.Quote(what+" while holding "+heldList(w.held)), rw: "W"})
+}
+
 func (w *walker) access(f *frame, pos token.Pos, class string, write bool, o owner) {
 	r := row{handler: w.handler, fn: f.fname, line: line(pos), class: class, rw: "R"}
 	if write {
@@ -993,6 +1003,7 @@ func (w *walker) expr(f *frame, e ast.Expr, write bool) {
 		w.expr(f, e.X, false)
 	case *ast.UnaryExpr:
 		if e.Op == token.ARROW {
+			w.blocking(f, e.Pos(), "receive from "+exprString(e.X))
 			w.expr(f, e.X, false)
 			return
 		}
@@ -1353,6 +1364,7 @@ func (w *walker) stmt(f *frame, s ast.Stmt) bool {
 			}
 		}
 	case *ast.SendStmt:
+		w.blocking(f, s.Pos(), "send on "+exprString(s.Chan))
 		w.expr(f, s.Chan, false)
 		w.expr(f, s.Value, false)
 		w.escapeCheck(f, owner{}, s.Value, s.Value.Pos(), "sent on "+exprString(s.Chan))
@@ -1416,6 +1428,11 @@ func (w *walker) stmt(f *frame, s ast.Stmt) bool {
 			return true // for { ... } left only by return
 		}
 	case *ast.RangeStmt:
+		if tv, ok := info.Types[s.X]; ok && tv.Type != nil {
+			if _, isChan := tv.Type.Underlying().(*types.Chan); isChan {
+				w.blocking(f, s.Pos(), "range over channel "+exprString(s.X))
+			}
+		}
 		w.expr(f, s.X, false)
 		w.container(f, s.X, s.Pos(), false)
 		entry := cloneHeld(w.held)
